@@ -229,9 +229,14 @@ def c11(run):
     run.sites = {"update", "panic"}
     deep = "FALSE" if run.quick() else "TRUE"
     tlc, s = run_tlc_replay(run, "MC_Update", "MC_Update.tla",
-                            dict(spec="Spec", constants={"Deep": deep}, invariants=["UpdatedEquivFresh", "Emit"]),
+                            dict(spec="Spec", constants={"Deep": deep, "Twice": "FALSE"}, invariants=["UpdatedEquivFresh", "Emit"]),
                             "C11", workers=4, threads=8, timeout=7000)
     run.add(tlc, s)
+    # two update-engine calls in a row (e.g. suggestions off, then on again) after an edit
+    tlc, s2 = run_tlc_replay(run, "MC_Update_twice", "MC_Update.tla",
+                             dict(spec="Spec", constants={"Deep": "FALSE", "Twice": "TRUE"}, invariants=["UpdatedEquivFresh", "Emit"]),
+                             "C11", workers=4, threads=8, timeout=7000)
+    run.add(tlc, s2)
     # method / option switches with composition state around them: MC_Session histories contain update events
     d = 4 if run.quick() else 5
     tlc, s = run_tlc_replay(run, "MC_Session_mixed", "MC_Session.tla",
